@@ -467,14 +467,20 @@ func threadHandle(thread *Core) *value.Value {
 	})
 }
 
+// Waits until no core is left, without receiving what the cores have to report: that is left to `Wait`, which
+// another goroutine of the host runs at the same time. The lock is only held while the list is looked at:
+// `spawnCore` and `removeCore` must be able to get it.
 func (self *VM) WaitNonConsuming() {
 	for {
 		self.Cores.Lock.RLock()
-		defer self.Cores.Lock.RUnlock()
+		remaining := len(self.Cores.Cores)
+		self.Cores.Lock.RUnlock()
 
-		if len(self.Cores.Cores) == 0 {
+		if remaining == 0 {
 			break
 		}
+
+		time.Sleep(VMWaitIdleSleep)
 	}
 }
 
